@@ -386,6 +386,12 @@ class Symx:
         return self.arith(op, l, r, strip(e['lhs']).get('ty'), strip(e['rhs']).get('ty'), e)
 
     def arith(self, op, l, r, lt, rt, e=None):
+        # a truth value used as a number is 0 or 1
+        truth = (sp.core.relational.Relational, sp.And, sp.Or, sp.Not, sp.logic.boolalg.BooleanTrue, sp.logic.boolalg.BooleanFalse)
+        if isinstance(l, truth):
+            l = Piecewise((Integer(1), l), (Integer(0), True))
+        if isinstance(r, truth):
+            r = Piecewise((Integer(1), r), (Integer(0), True))
         if op == '+':
             return l + r
         if op == '-':
